@@ -285,8 +285,10 @@ theorem data_chainVal {wf : Bool} {f : Val → Val → Val} (hf : ∀ a b, Data 
 
 /-! ### environments and built-ins that keep values data -/
 
-/-- The environments of the theorems of `C05Compile2`: no stored programs, bindings present, no functions
-    bound by the caller, every parameter bound to plain data. -/
+/-- The environments of the theorems of `C05Compile2`: no stored programs and no recording of the
+    unresolved-name flag (`NoProgs`: every run-time environment; the compile-time run is related to one by
+    `Lemmas/Unres.lean`), bindings present, no functions bound by the caller, every parameter bound to plain
+    data. -/
 structure EnvOK (env : Env) : Prop where
   noProgs : NoProgs env
   binds : env.hasBinds = true
